@@ -273,6 +273,25 @@ type UnitResult struct {
 	unit        *Unit
 }
 
+// allFuncKeys: the keys of every function with a body declared in non-test files of p, in source order.
+func (eng *Engine) allFuncKeys(p *packages.Package) []string {
+	var keys []string
+	for _, f := range p.Syntax {
+		name := eng.fset.Position(f.Pos()).Filename
+		if strings.HasSuffix(name, "_test.go") {
+			continue
+		}
+		for _, d := range f.Decls {
+			if fd, ok := d.(*ast.FuncDecl); ok && fd.Body != nil {
+				if obj, ok := p.TypesInfo.Defs[fd.Name].(*types.Func); ok {
+					keys = append(keys, calleeKey(obj))
+				}
+			}
+		}
+	}
+	return keys
+}
+
 // shortName: the package name used in obligation names; `deprecated/X` is called deprecated_X when a package X also
 // exists at the top level (two packages are named bucketteer).
 func (eng *Engine) shortName(p *packages.Package) string {
